@@ -294,7 +294,7 @@ META = {
     'required_labels': ['c10.delivery-time', 'c10.loss-rule', 'c10.order-preserved', 'c10.ab.delivery-time',
                         'c10.ba.delivery-time', 'c10.cable-A-to-B-only'],
     'required_covers': ['nontrivial', 'lost', 'two-instances', 'same-object-twice', 'thousands-in-flight'],
-    'bounds': {'quick': 'n=3 packets (4 without loss); cable 2+2 packets; gaps, delays >= 0 unbounded Int/Real; loss rate symbolic in [0,1]',
+    'bounds': {'quick': 'n=3 packets (4 without loss); cable 2+2 packets; gaps, delays >= 0 unbounded Int/Real; loss rate symbolic in [0,1]; two wires side by side; one packet object entering twice; 4500 packets in flight (concrete long run); bursts of 5-6',
                'thorough': 'n=4-5 (5-6 without loss); cable 2+2 and 3+3, up to a path budget'},
     'assumptions': ['draws are bound to packets positionally per wire process: i-th loss draw = i-th packet entering, '
                     'j-th delay draw = j-th surviving packet; u == p left free'],
